@@ -1,14 +1,15 @@
+\* a first call, then a probe whose response is never read
 SPECIFICATION Spec
 CONSTANTS
-    Mode = "edges"
+    Mode = "pairs"
     Depth = 0
-    MaxCalls = 1
-    Calls <- QuickCalls
+    MaxCalls = 2
+    Calls <- McCalls
     Probes <- ProbeCalls
-    Debug = FALSE
+    Debug = TRUE
     HookMode = "ok"
     PvSet = FALSE
-    Hang = FALSE
+    Hang = TRUE
     DrainOnRefusal = TRUE
 VIEW View
 CHECK_DEADLOCK FALSE
